@@ -32,6 +32,8 @@ fn child() {
         "main" => divan::main(),
         "list_benches" => divan::Divan::from_args().list_benches(),
         "test_benches" => divan::Divan::from_args().test_benches(),
+        // the builder's `threads` with an empty list: still one run per case
+        "main_threads_empty" => divan::Divan::from_args().threads(std::iter::empty::<usize>()).main(),
         other => panic!("HX_API {other}"),
     });
     let _ = std::io::stdout().flush();
@@ -328,6 +330,9 @@ fn run_case(line: &str) -> String {
             ),
             'L' => canon_tree(&run_child(line, "main", false, &with(cli_args(&sp, None, false), &["--list"])), false),
             'K' => String::new(),
+            // test run / terse listing with `Divan::threads([])` set through the builder
+            'm' => canon_tree(&run_child(line, "main_threads_empty", false, &with(cli_args(&sp, None, false), &["--test"])), true),
+            'n' => canon_terse(&run_child(line, "main_threads_empty", true, &with(cli_args(&sp, None, false), &["--list", "--format", "terse"]))),
             // combinations and orders of the action flags
             'a' | 'b' | 'c' | 'd' | 'f' | 'g' | 'h' | 'j' | 'k' => {
                 let (nextest, flags): (bool, &[&str]) = match act {
@@ -347,6 +352,15 @@ fn run_case(line: &str) -> String {
                     'f' | 'g' | 'h' => canon_tree(&o, true),
                     _ => canon_tree(&o, false),
                 }
+            }
+            'O' => {
+                // registered options (ignore, sample_count, counters, threads) of every entry
+                let o = run_child(line, "optdump", false, &[]);
+                let mut s = enc(o.stdout.lines().next().unwrap_or(""));
+                if o.status != "ok" {
+                    s.push_str(&format!("!{}", o.status));
+                }
+                s
             }
             'D' => {
                 let o = run_child(line, "dump", false, &[]);
@@ -394,6 +408,59 @@ fn run_case(line: &str) -> String {
     out.join(" ")
 }
 
+/// `push` mode: `<threads> <nodes per thread> <rounds>`.  Overlapping `EntryList::push` calls (the public
+/// `__private` API the macros' constructors use) from several threads released by a barrier; afterwards the
+/// list must contain the head's own entry and every pushed node exactly once.
+fn run_push(line: &str) -> String {
+    use divan::__private::EntryList;
+    let f: Vec<usize> = line.split(' ').map(|s| s.parse().expect("push case")).collect();
+    let (threads, per, rounds) = (f[0], f[1], f[2]);
+    for round in 0..rounds {
+        let head: &'static EntryList<u64> = Box::leak(Box::new(EntryList::new(Box::leak(Box::new(0u64)))));
+        let nodes: Vec<Vec<&'static EntryList<u64>>> = (0..threads)
+            .map(|t| {
+                (0..per)
+                    .map(|j| {
+                        let v: &'static u64 = Box::leak(Box::new((t * per + j + 1) as u64));
+                        &*Box::leak(Box::new(EntryList::new(v)))
+                    })
+                    .collect()
+            })
+            .collect();
+        let barrier = std::sync::Barrier::new(threads);
+        std::thread::scope(|s| {
+            for mine in &nodes {
+                let barrier = &barrier;
+                s.spawn(move || {
+                    barrier.wait();
+                    for n in mine {
+                        head.push(n);
+                    }
+                });
+            }
+        });
+        let total = threads * per + 1;
+        let mut seen = vec![0u32; total];
+        let mut len = 0usize;
+        let mut first = None;
+        for v in head.iter().take(total + 8) {
+            if first.is_none() {
+                first = Some(*v);
+            }
+            len += 1;
+            if (*v as usize) < total {
+                seen[*v as usize] += 1;
+            }
+        }
+        let lost = seen.iter().filter(|&&c| c == 0).count();
+        let dup = seen.iter().filter(|&&c| c > 1).count();
+        if lost != 0 || dup != 0 || len != total || first != Some(0) {
+            return format!("round={round} lost={lost} dup={dup} len={len} of {total} first={first:?}");
+        }
+    }
+    "ok".to_string()
+}
+
 fn parent(mode: &str) {
     let stdin = std::io::stdin();
     let lines: Vec<String> =
@@ -410,6 +477,7 @@ fn parent(mode: &str) {
                 }
                 let r = std::panic::catch_unwind(|| match mode {
                     "run" | "c14" | "c12" | "c17" => run_case(&lines[i]),
+                    "push" => run_push(&lines[i]),
                     "types" => (0..registry::N_TYPES).map(|t| enc(registry::type_name(t))).collect::<Vec<_>>().join(" "),
                     other => format!("unknown mode {other}"),
                 })
